@@ -16,8 +16,34 @@ _STATE = {}
 
 def get_mm():
     if "mm" not in _STATE:
-        _STATE["mm"] = MM.load(impl.MODEL_PATH)
+        mm = MM.load(impl.MODEL_PATH)
+        _register_and_types(mm)
+        _STATE["mm"] = mm
     return _STATE["mm"]
+
+
+def _register_and_types(mm):
+    """`and` types (registration options / params of a method) have a generated class of their own; the class
+    is found structurally (its attributes are exactly the merged properties) and becomes a root like the
+    message envelopes, so that the value-space checks also cover it."""
+    try:
+        import attrs
+        from .mm import camel_of_attr
+        lsp = impl.lsp()
+    except Exception:  # noqa: BLE001
+        return
+    env = mm.envelopes()
+    for m in mm.requests + mm.notifications:
+        for f in ("params", "registrationOptions"):
+            t = m.get(f)
+            if isinstance(t, dict) and t.get("kind") == "and":
+                props = mm.and_props(t)
+                names = {p["name"] for p in props}
+                for c in vars(lsp).values():
+                    if isinstance(c, type) and attrs.has(c) and c.__name__ not in mm.structures and c.__name__ not in env \
+                            and {camel_of_attr(a.name) for a in attrs.fields(c)} == names:
+                        env[c.__name__] = {"name": c.__name__, "role": "and", "method": m["method"], "properties": props, "always": ()}
+                        break
 
 
 def root_class(name):
